@@ -15,11 +15,11 @@ struct simulation_configuration global_config;
 #endif
 
 /* recording stubs for the per-LP constructors / destructors */
-static unsigned inited[MAXLP + 1], finied[MAXLP + 1], seeded[MAXLP + 1], mminit[MAXLP + 1], mmfini[MAXLP + 1], term[MAXLP + 1];
+static unsigned inited[2 * MAXLP + 2], finied[2 * MAXLP + 2], seeded[2 * MAXLP + 2], mminit[2 * MAXLP + 2], mmfini[2 * MAXLP + 2], term[2 * MAXLP + 2];
 static unsigned order_err;
 void model_allocator_lp_init(struct mm_state *self) { mminit[(struct lp_ctx *)((char *)self - offsetof(struct lp_ctx, mm_state)) - lps]++; }
 void model_allocator_lp_fini(struct mm_state *self) { mmfini[(struct lp_ctx *)((char *)self - offsetof(struct lp_ctx, mm_state)) - lps]++; }
-static struct rng_ctx rngs[MAXLP + 1];
+static struct rng_ctx rngs[2 * MAXLP + 2];
 void *rs_malloc(size_t sz)
 {
 	(void)sz;
@@ -46,6 +46,8 @@ void process_lp_fini(struct lp_ctx *lp)
 }
 void termination_lp_init(struct lp_ctx *lp) { term[lp - lps]++; }
 
+static struct lp_ctx lp_store[2 * MAXLP + 2];
+
 /* node level: ranges are the preimages of the routing function */
 void harness_node(void)
 {
@@ -57,10 +59,12 @@ void harness_node(void)
 #endif
 	VERIF_ASSUME(L >= 1 && L <= MAXLP && N >= 1 && N <= MAXN && N <= L && n < N && w < L);
 	global_config.lps = L;
+	global_config.n_threads = vin_upto(MAXN - 1) + 1;
+	unsigned T0 = global_config.n_threads;
 	n_nodes = N;
 	nid = n;
-	lid_node_first = partition_start(nid, n_nodes, lid_to_nid, 0, global_config.lps);
-	n_lps_node = partition_start(nid + 1, n_nodes, lid_to_nid, 0, global_config.lps) - lid_node_first;
+	lp_global_init(); /* the real function */
+	VERIF_ASSERT(global_config.n_threads == (n_lps_node < T0 ? n_lps_node : T0), "the thread count is clipped to the number of LPs of the rank");
 	VERIF_ASSERT(n_lps_node >= 1, "a rank hosts at least one LP when ranks <= LPs");
 	VERIF_ASSERT((n == 0) == (lid_node_first == 0), "rank 0 (and only rank 0) starts at LP 0");
 	VERIF_ASSERT((n == N - 1) ? lid_node_first + n_lps_node == L : lid_node_first + n_lps_node < L, "the last rank (and only it) ends at the last LP");
@@ -92,8 +96,11 @@ void harness_thread(void)
 	global_config.n_threads = TT;
 	VERIF_ASSUME(r < TT && w >= first && w < first + cnt);
 	rid = r;
-	lid_thread_first = partition_start(rid, global_config.n_threads, lid_to_rid, lid_node_first, n_lps_node);
-	lid_thread_end = partition_start(rid + 1, global_config.n_threads, lid_to_rid, lid_node_first, n_lps_node);
+	lps = lp_store; /* indexed by global LP id */
+	lp_init(); /* the real function, per-LP constructors are recording stubs */
+	VERIF_ASSERT(order_err == 0, "per-LP construction order respected");
+	VERIF_ASSERT(inited[w] == ((w >= lid_thread_first && w < lid_thread_end) ? 1U : 0U), "lp_init constructs exactly the LPs of the thread's range, once");
+	VERIF_ASSERT(inited[w] == (lid_to_rid((lp_id_t)w) == r ? 1U : 0U), "an LP is constructed by the thread that routing names, and by no other");
 	VERIF_ASSERT(lid_thread_end > lid_thread_first, "no thread is left without LPs");
 	VERIF_ASSERT((r == 0) == (lid_thread_first == first), "thread 0 (and only it) starts at the rank's first LP");
 	VERIF_ASSERT((r == TT - 1) == (lid_thread_end == first + cnt), "the last thread (and only it) ends at the rank's last LP");
@@ -112,7 +119,6 @@ void harness_thread(void)
 #ifdef VERIF_CBMC
 void *malloc(size_t n);
 #endif
-static struct lp_ctx lp_store[MAXLP + 1];
 void harness_lifecycle(void)
 {
 	unsigned L = vin_u32();
